@@ -23,6 +23,11 @@ pub open spec fn code_of_type(t: TYPE) -> u16 {
         TYPE::Unknown(x) => x,
     }
 }
+// derived PartialEq is structural (assumption "derived impls are structural")
+impl vstd::std_specs::cmp::PartialEqSpecImpl for TYPE {
+    open spec fn obeys_eq_spec() -> bool { true }
+    open spec fn eq_spec(&self, other: &TYPE) -> bool { *self == *other }
+}
 impl vstd::std_specs::convert::FromSpecImpl<u16> for TYPE {
     open spec fn obeys_from_spec() -> bool { true }
     open spec fn from_spec(v: u16) -> Self { type_of_code(v) }
@@ -35,6 +40,27 @@ impl vstd::std_specs::convert::FromSpecImpl<TYPE> for u16 {
 """ % (arms_of, arms_to)
 
 MOD_SPECS = """verus!{
+// derived PartialEq is structural (assumption "derived impls are structural")
+impl vstd::std_specs::cmp::PartialEqSpecImpl for QTYPE {
+    open spec fn obeys_eq_spec() -> bool { true }
+    open spec fn eq_spec(&self, other: &QTYPE) -> bool { *self == *other }
+}
+impl vstd::std_specs::cmp::PartialEqSpecImpl for CLASS {
+    open spec fn obeys_eq_spec() -> bool { true }
+    open spec fn eq_spec(&self, other: &CLASS) -> bool { *self == *other }
+}
+impl vstd::std_specs::cmp::PartialEqSpecImpl for QCLASS {
+    open spec fn obeys_eq_spec() -> bool { true }
+    open spec fn eq_spec(&self, other: &QCLASS) -> bool { *self == *other }
+}
+impl vstd::std_specs::cmp::PartialEqSpecImpl for OPCODE {
+    open spec fn obeys_eq_spec() -> bool { true }
+    open spec fn eq_spec(&self, other: &OPCODE) -> bool { *self == *other }
+}
+impl vstd::std_specs::cmp::PartialEqSpecImpl for RCODE {
+    open spec fn obeys_eq_spec() -> bool { true }
+    open spec fn eq_spec(&self, other: &RCODE) -> bool { *self == *other }
+}
 impl vstd::std_specs::convert::FromSpecImpl<TYPE> for QTYPE {
     open spec fn obeys_from_spec() -> bool { true }
     open spec fn from_spec(v: TYPE) -> Self { QTYPE::TYPE(v) }
